@@ -30,6 +30,21 @@ def messages(version):
     return lib(version).MESSAGES
 
 
+def message_ref(version, name):
+    """The structure of a message; for a Z message (which the library accepts and gives the empty
+    structure: any segment may be added) a synthetic one the *generators* draw segments from.  The
+    monitors keep using messages(): a Z message has no structure to be judged against."""
+    ref = lib(version).MESSAGES.get(name)
+    if ref is None and name and name.upper().startswith('Z'):
+        segs = lib(version).SEGMENTS
+        ents = [('MSH', segs['MSH'], (1, 1), 'SEG')]
+        for sname in ('EVN', 'PID', 'PV1', 'NK1', 'OBX', 'NTE', 'AL1'):
+            if sname in segs:
+                ents.append((sname, segs[sname], (0, -1), 'SEG'))
+        return ('sequence', tuple(ents))
+    return ref
+
+
 def segments(version):
     return lib(version).SEGMENTS
 
